@@ -332,15 +332,18 @@ func (t Table) matchingHosts(req *http.Request, globCache *GlobCache) (hosts []s
 
 	hosts = sortHostsReverseHostPort(hosts)
 
-	// an exact host always beats a wildcard host, e.g. 'x.com' beats '*x.com'
-	for i, pattern := range hosts {
+	// an exact host always beats a wildcard host, e.g. 'x.com' beats '*x.com'.
+	// The table may spell the exact host both with and without the default
+	// port ('x.com' and 'x.com:80'): all of them go first.
+	var exact, other []string
+	for _, pattern := range hosts {
 		if pattern != "" && normalizeHost(pattern, req.TLS != nil) == host {
-			copy(hosts[1:i+1], hosts[:i])
-			hosts[0] = pattern
-			break
+			exact = append(exact, pattern)
+		} else {
+			other = append(other, pattern)
 		}
 	}
-	return
+	return append(exact, other...)
 }
 
 // Issue 548 - Added separate func
